@@ -44,6 +44,8 @@ def write_history(history, header=b"%PDF-1.7\n%\xe2\xe3\xcf\xd3\n", tail=b"\n", 
     prev = None
     nextc = container_base
     sections = []
+    hybrid_parts = {}  # ri -> (offset of the /XRefStm stream, ids in the table, ids in the stream)
+    copied = set()  # revisions (classic table) whose trailer repeats the /XRefStm of the hybrid revision before them
     containers = set()
     maxn = 0
     spans = []
@@ -188,6 +190,11 @@ def write_history(history, header=b"%PDF-1.7\n%\xe2\xe3\xcf\xd3\n", tail=b"\n", 
             out += t
             spans.append((x, x + len(t)))
             trailer[b"Size"] = size
+            if rev.get("copy_xrefstm") and (ri - 1) in hybrid_parts:
+                # a writer that copies the previous trailer: the update names the cross-reference stream of the hybrid
+                # revision before it once more (nothing is defined twice: no object is ever deleted)
+                trailer[b"XRefStm"] = hybrid_parts[ri - 1][0]
+                copied.add(ri)
             out += b"trailer" + rev.get("trailer_sep", eol) + W.ser(trailer) + eol
             sections.append(set(offs))
         elif form == "stream":
@@ -210,9 +217,10 @@ def write_history(history, header=b"%PDF-1.7\n%\xe2\xe3\xcf\xd3\n", tail=b"\n", 
             trailer[b"XRefStm"] = xs_off
             out += b"trailer" + rev.get("trailer_sep", eol) + W.ser(trailer) + eol
             sections.append(set(offs) | set(comp))
+            hybrid_parts[ri] = (xs_off, set(offs), set(comp) | {xs_num})
         out += b"startxref" + eol + b"%d" % x + eol + b"%%EOF" + (tail if ri == len(history) - 1 else b"\n")
         prev = x
         all_offs.update(offs)
         ever |= set(offs) | set(comp)
-    return bytes(out), {"sections": sections, "containers": containers, "startxref": prev, "xref_spans": spans,
+    return bytes(out), {"sections": sections, "hybrid_parts": hybrid_parts, "copied_xrefstm": copied, "containers": containers, "startxref": prev, "xref_spans": spans,
                         "offsets": all_offs}
